@@ -66,3 +66,23 @@ def run(ctx):
                 ctx.violation("start() message of %s has %d bytes, the published format has %d" % (ps, len(ma), want),
                               {"kind": "length", "ps": ps, "len": len(ma)})
     ctx.validate(traces, uni, what="interop exchange")
+    # 4. code -> spec: every session the repository's own 43 tests create, validated against the specification
+    import subprocess
+    out = os.path.join(scratch(), "repo_suite_traces.json")
+    env = dict(os.environ, PYTHONPATH=os.path.join(VERIF, "harness") + os.pathsep + os.path.join(REPO, "src"),
+               VERIF_TRACE_OUT=out, PYTHONDONTWRITEBYTECODE="1")
+    r = subprocess.run(["/venv/bin/python", "-m", "pytest", "-q", "-p", "no:cacheprovider", "-p", "pytest_trace_plugin",
+                        os.path.join(REPO, "src", "spake2")], cwd=REPO, env=env, capture_output=True, text=True, timeout=1800)
+    if not os.path.exists(out):
+        raise MachineryError("tracing the repository's test-suite produced no traces:\n" + (r.stdout + r.stderr)[-2000:])
+    doc = json.load(open(out))
+    os.unlink(out)
+
+    class Hdr:
+        def header(self):
+            return {"groups": doc["groups"], "params": doc["params"]}
+    ctx.cov["repo_suite"] = {"pytest_summary": (r.stdout.strip().splitlines() or ["?"])[-1], "traces": len(doc["traces"]),
+                             "events": sum(len(t["events"]) for t in doc["traces"])}
+    if len(doc["traces"]) < 10:
+        raise MachineryError("only %d traces recorded from the repository's test-suite" % len(doc["traces"]))
+    ctx.validate(doc["traces"], Hdr(), what="repository test-suite session")
